@@ -18,7 +18,9 @@ LEVEL_TEXT = ('Decides clauses C19-a/b/c: from the request-time closure of the s
               'igured extension is stripped, by a match anchored at the end of the file name (a suffix, not the text after the first dot); the handler answers with t'
               'he file bytes through with_payload (Content-Type from the extension table, Content-Length from the same bytes); the extension table maps to well-forme'
               'd, distinct-keyed media types. C19-d: the buffer StaticFileHandler::new stores is handed out mutably only to the read that fills it: nothing modifies '
-              'the snapshot between the read and the store. Decides these clauses, not the exact served set for all directory trees.')
+              'the snapshot between the read and the store. C19-e: in the directory walk of Dir::new every entry found to be a regular file is recorded and every dir'
+              'ectory is descended into before the next entry is taken (no skip under any other condition). Decides these clauses, not the exact served set for all d'
+              'irectory trees.')
 
 FS_API = r"^std::(fs|io|path|env|os)::|^<std::(fs|io|path)::|^std::sys::"
 
@@ -32,6 +34,7 @@ def run(ck, progs):
         ck.guard("C19-b WHO registration", lambda: c19b(ck, prog))
         ck.guard("C19-c PAIR payload", lambda: c19c(ck, prog))
         ck.guard("C19-d WHO snapshot is the file's bytes", lambda: c19d(ck, prog))
+        ck.guard("C19-e MUSTPASS the walk takes every entry", lambda: c19e(ck, prog))
     ck.config = None
 
 
@@ -359,3 +362,40 @@ def c19d(ck, prog):
     ck.ob(R, "snapshot:unmodified", ok, f.loc(bad[0][0].sp) if bad else f.loc(rc.sp),
           "" if ok else ("the buffer read from the file is modified before it is stored: `%s` takes it mutably -- the served body is no longer byte-identical to the file" % bad[0][0].callee if bad
                          else "no read into the stored buffer was found"), how="the buffer is handed out mutably only to the read that fills it (%d)" % fills)
+
+
+def c19e(ck, prog):
+    """`serves exactly the regular files under it`: in the directory walk of Dir::new, from the edge that found an entry
+    to be a regular file every way back to the loop head passes the push that records it, and from the edge that found it
+    to be a directory every way back passes the step that queues its entries (a `?` error return is not a way back): no
+    entry is skipped under a counter, a name test or any other condition. Likewise in Dir::apply every recorded file
+    reaches a register call before the next one is taken."""
+    from .lib.bound import natural_loops
+    R = "C19-e MUSTPASS the walk takes every entry"
+    fs = [f for f in prog.fns.values() if re.search(r"routing::Dir::new$", f.key)]
+    if len(fs) != 1:
+        raise AnchorLost("Dir::new not found")
+    f = prog.inlined(fs[0], 1, lambda caller, callee: callee.crate == caller.crate and callee.key.startswith(caller.key + "::") and callee.kind != "Closure" and len(callee.blocks) < 80 and not callee.calls_to(r"read_dir$"))
+    loops = natural_loops(f)
+    pops = [c for c in f.calls() if c.name in ("pop", "pop_front", "next") and any(c.bb in body for body in loops.values())]
+    n = 0
+    for what, test, sinks in (("file", "is_file", r"Vec::<T, A>::push$"), ("directory", "is_dir", r"Vec::<T, A>::(append|extend|extend_from_slice|push)$|VecDeque.*::(append|extend|push_back)$")):
+        tests = [c for c in f.calls() if c.name == test and any(c.bb in b and any(pp.bb in b for pp in pops) for b in loops.values())]
+        if len(tests) != 1:
+            raise AnchorLost("the walk of Dir::new does not test %s exactly once (%d)" % (test, len(tests)))
+        t = tests[0]
+        body = min([b for b in loops.values() if t.bb in b], key=len, default=None)
+        if body is None:
+            raise AnchorLost("%s is not tested inside the walk loop" % test)
+        header = [h for h, b in loops.items() if b is body][0]
+        # the block where the test's result is switched on
+        sw = [bb for bb in body if f.blocks[bb]["t"]["k"] == "switch" and re.search(r"^%s\(" % test, decision.describe_deep(f, f.blocks[bb]["t"]["discr"], 2))]
+        if len(sw) != 1:
+            raise AnchorLost("the result of %s is not switched on once" % test)
+        true_tb = [tb for tb, lab in f.succ(sw[0]) if lab != 0]
+        sink_bbs = tuple(c.bb for c in f.calls() if re.search(sinks, c.callee or "") and c.bb in body and f.dominates(sw[0], c.bb))
+        n += 1
+        ok = bool(sink_bbs) and bool(true_tb) and header not in f.reachable_from(true_tb[0], avoid=sink_bbs)
+        ck.ob(R, "walk:every-%s" % what, ok, f.loc(t.sp), "" if ok else "in Dir::new an entry found to be a %s can be passed over: the walk goes on to the next entry on a path that neither %s nor fails -- files under the directory would answer 404" % (what, "records it" if what == "file" else "queues its entries"),
+              how="from the `%s` edge every way back to the loop head passes %s" % (test, "files.push(..)" if what == "file" else "entries.append(fetch_entries(..))"))
+    ck.floor(R, "walk decisions", n, 2)
